@@ -753,7 +753,10 @@ impl Generator {
             (hj, hw)
         };
         let hot = !hot_jobs.is_empty();
-        let boost = |w: u32, f: u32| if hot { w * f } else { w };
+        // tasks of two jobs being asked back at the same time: the window in which a cancel of one
+        // job can disturb the other one is open
+        let very_hot = hot_jobs.len() >= 2;
+        let boost = |w: u32, f: u32| if very_hot { w * f * 3 } else if hot { w * f } else { w };
         let weights: Vec<u32> = vec![
             /* 0 connect */ if n_workers < p.max_workers { p.w_connect } else { 0 },
             /* 1 kill */ if n_workers > 0 { boost(p.w_kill, 2) } else { 0 },
@@ -882,7 +885,7 @@ impl Generator {
             10 => Action::Req {
                 client: usize::MAX,
                 req: ClientReq::Cancel {
-                    job: if hot && rng.chance(60, 100) {
+                    job: if hot && rng.chance(if very_hot { 85 } else { 60 }, 100) {
                         *rng.pick(&hot_jobs)
                     } else {
                         pick_job(rng, &jobs)
